@@ -908,7 +908,7 @@ def rand_session(rng):
                     params.append({'kind': 'scalar', 'v': rng.choice(vals)})
                 else:
                     params.append({'kind': 'table', 'obj': rng.choice(cand) + 1})
-                defs.append([rng.choice(vals)] if rng.random() < 0.3 else [])
+                defs.append([rng.choice(vals[:8])] if rng.random() < 0.3 else [])       # defaults are never sequences (as in rand_cfg)
             tabs = [i for i in range(n) if params[i]['kind'] == 'table']
             api = rng.choice(['run', 'run', 'join'])
             st = {'kind': 'call', 'api': api, 'params': params, 'defs': defs, 'opts': rng.choice(OPTS) if api == 'run' else DEFAULT_OPTS,
